@@ -18,9 +18,9 @@ INPUT = (None, "inline", "use-base", "use-local", "use-remote")
 OUTPUT = (None, "inline", "use-base", "use-local", "use-remote", "remove", "clear-all")
 
 
-def strategy_args(merge="inline", inp=None, out=None, transients=True):
+def strategy_args(merge="inline", inp=None, out=None, transients=True, log_level="ERROR"):
     return argparse.Namespace(merge_strategy=merge, input_strategy=inp, output_strategy=out,
-                              ignore_transients=transients, log_level="ERROR")
+                              ignore_transients=transients, log_level=log_level)
 
 
 def strategy_name(a):
@@ -48,12 +48,13 @@ _ORIG_PATH = os.environ.get("PATH", "")
 
 @contextlib.contextmanager
 def helper(kind):
-    """kind in {'git', 'diff3', 'builtin', 'all'}"""
+    """kind in {'git', 'diff3', 'builtin', 'diffonly', 'all'}  (diffonly: a machine with `diff` but neither git nor
+    diff3 - for merging that is "neither helper available")"""
     if kind == "all":
         yield
         return
     d = tlc.subdir("path-" + kind)
-    want = {"git": ("git",), "diff3": ("diff3", "diff"), "builtin": ()}[kind]
+    want = {"git": ("git",), "diff3": ("diff3", "diff"), "builtin": (), "diffonly": ("diff",)}[kind]
     for name in want:
         dst = os.path.join(d, name)
         if _REAL.get(name) and not os.path.lexists(dst):
